@@ -208,6 +208,10 @@ func (privateKey *PrivateKey) Proof(k *big.Int, ecdsaPub *crypto2.ECPoint) Proof
 }
 
 func (pf Proof) Verify(pkN, k *big.Int, ecdsaPub *crypto2.ECPoint) (bool, error) {
+	if pkN == nil || pkN.Cmp(one) != 1 {
+		// GenerateXs looks for units modulo N and never finds one for N <= 1
+		return false, errors.New("paillier proof verify: the modulus must be greater than one")
+	}
 	iters := ProofIters
 	pch, xch := make(chan bool, 1), make(chan []*big.Int, 1) // buffered to allow early exit
 	prms := primes.Until(verifyPrimesUntil).List()           // uses cache primed in init()
